@@ -72,16 +72,21 @@ TIES = {
                       reg=[("C19", ["DsProofs.TieC.TIEC_setitem", "DsProofs.TieC.TIEC_insert", "DsProofs.TieC.TIEC_delitem"])]),
     "addops": dict(translator="translate_addops", targets=["GenD", "TieD"], audit="AuditTieD.lean", root="TieD", driver=None,
                    modules=["GenD.Ops", "TieD.Properties", "TieD.Reach"],
-                   what="ADD.restrict, ADD.modelcount, ShapleyOracle.query (harness/translate_addops.py -> lean/GenD/Ops.lean)",
+                   what="ADD.restrict, ADD.modelcount, ShapleyOracle.__init__, ShapleyOracle.query (harness/translate_addops.py -> lean/GenD/Ops.lean)",
                    reg=[("C10", ["DsProofs.TieD.TIED_restrict", "DsProofs.TieD.TIED_modelcount", "DsProofs.TieD.TIED_restrict_reach", "DsProofs.TieD.TIED_modelcount_reach",
                                  "DsProofs.TieD.reach_shape"]),
-                        ("C09", ["DsProofs.TieD.TIED_query", "DsProofs.TieD.TIED_restrict_reach", "DsProofs.TieD.TIED_modelcount_reach"]),
+                        ("C09", ["DsProofs.TieD.TIED_query", "DsProofs.TieD.TIED_init", "DsProofs.TieD.TIED_restrict_reach", "DsProofs.TieD.TIED_modelcount_reach"]),
                         ("C02", ["DsProofs.TieD.TIED_query"])]),
+    "ucall": dict(translator="translate_ucall", targets=["GenK", "TieK"], audit="AuditTieK.lean", root="TieK", driver=None,
+                  modules=["GenK.UCall", "TieK.Properties"],
+                  what="the failure handler of SklearnModelUtility.__call__ (harness/translate_ucall.py -> lean/GenK/UCall.lean)",
+                  reg=[("C15", ["DsProofs.TieK.TIEK_supplied", "DsProofs.TieK.TIEK_layer1", "DsProofs.TieK.TIEK_total", "DsProofs.TieK.TIEK_fallback"])]),
     "nbr": dict(translator="translate_nbr", targets=["GenN", "TieN"], audit="AuditTieN.lean", root="TieN", driver=None,
                 modules=["GenN.Neighbor", "TieN.Properties"],
-                what="compute_shapley_add, get_unit_labels_and_distances, compute_shapley_1nn_mapfork (harness/translate_nbr.py -> lean/GenN/Neighbor.lean)",
+                what="compute_shapley_add, get_unit_labels_and_distances, compute_shapley_1nn_mapfork, the batch loop of _shapley_neighbor (harness/translate_nbr.py -> lean/GenN/Neighbor.lean)",
                 reg=[("C02", ["DsProofs.TieN.TIEN_add_sums", "DsProofs.TieN.TIEN_add_model", "DsProofs.TieN.TIEN_C02"]),
-                     ("C01", ["DsProofs.TieN.TIEN_reduce", "DsProofs.TieN.TIEN_reduce_simple", "DsProofs.TieN.TIEN_mapfork"]),
+                     ("C01", ["DsProofs.TieN.TIEN_reduce", "DsProofs.TieN.TIEN_reduce_simple", "DsProofs.TieN.TIEN_mapfork", "DsProofs.TieN.TIEN_loop"]),
+                     ("C07", ["DsProofs.TieN.TIEN_loop", "DsProofs.TieN.TIEN_one_batch"]),
                      ("C12", ["DsProofs.TieN.TIEN_reduce"]),
                      ("C06", ["DsProofs.TieN.TIEN_add_sums"]),
                      ("C08", ["DsProofs.TieN.TIEN_add_sums"])]),
